@@ -1,0 +1,32 @@
+//go:build verif
+
+package acme
+
+import (
+	"crypto/x509"
+	"net"
+
+	"go.step.sm/crypto/x509util"
+)
+
+// Verification hooks for property C13 (add-only, build tag verif): thin wrappers around the
+// unexported CSR canonicalisation and identifier comparison used by Order.Finalize.
+
+// VerifCanonicalize calls canonicalize (mutates and returns csr).
+func VerifCanonicalize(csr *x509.CertificateRequest) *x509.CertificateRequest {
+	return canonicalize(csr)
+}
+
+// VerifSans calls Order.sans.
+func (o *Order) VerifSans(csr *x509.CertificateRequest) ([]x509util.SubjectAlternativeName, error) {
+	return o.sans(csr)
+}
+
+// VerifUniqueSortedLowerNames calls uniqueSortedLowerNames.
+func VerifUniqueSortedLowerNames(names []string) []string { return uniqueSortedLowerNames(names) }
+
+// VerifUniqueSortedIPs calls uniqueSortedIPs.
+func VerifUniqueSortedIPs(ips []net.IP) []net.IP { return uniqueSortedIPs(ips) }
+
+// VerifIPsAreEqual calls ipsAreEqual.
+func VerifIPsAreEqual(x, y net.IP) bool { return ipsAreEqual(x, y) }
